@@ -47,7 +47,8 @@ class P(vlib.Prop):
                   "walk of a tree — with recorded hard links, C06's envelope wfl_forest, links owned like their targets — ARE the tree), c10_layers_ok / c10_layers_ok_walk_links (LayersOk, five "
                   "clauses); every side condition is shown necessary by a refutation. Build order, for every configuration (valuation of the condition texts read from the source): "
                   "c10_build_order (both builds serialise after the same filesystem-changing steps, nothing after), c10_repositories_rewritten_last, c10_build_arguments, "
-                  "c10_build_serialises_same_state, c10_build_flatten. The validators decide the specification (c10_groups_validator_decides, c10_layers_validator_decides, both <->). "
+                  "c10_build_serialises_same_state, c10_build_flatten, c10_only_apko_json_sees_layering (read from the source: the only filesystem-changing step that can see the "
+                  "layering block is WriteEtcApkoConfig) and c10_build_serialises_same_state_src (the step-by-step hypothesis reduced to that step). The validators decide the specification (c10_groups_validator_decides, c10_layers_validator_decides, both <->). "
                   "On every run the real code's output is compared with the model (groups, split, observed step order) and judged by these validators (groups, split, e2e).")
     level_note = ("trusted: Coq kernel, Go harness/printer and its tar reader, synthrepo, the recording filesystem wrapper; modelled not verified: Go text of layers.go, the apk version "
                   "functions (tabulated), archive/tar and pgzip; the step lists of the build are read from the source by goextract (call order, conditions, arguments), what each step does is "
